@@ -138,7 +138,8 @@ func genReq(rr *core.Rand) reqSpec {
 	switch rr.Intn(6) {
 	case 0, 1:
 	case 2:
-		q = append(q, "maxmem=1048576")
+		// values below the documented 1 MiB minimum are valid and mean the minimum
+		q = append(q, "maxmem="+rr.Pick([]string{"1048576", "1", "1000", "65536", "1048575", "0", "-5"}))
 	case 3:
 		q = append(q, "maxmem="+strconv.Itoa(2<<20+rr.Intn(64<<20)))
 	case 4:
